@@ -48,7 +48,8 @@ type Job struct {
 	Sealed  []Sealed   `json:"sealed"` // syncer: blocks as received
 	Repeat  int        `json:"repeat"`
 	Restart int        `json:"restart"`
-	Resume  bool       `json:"resume"` // open the existing data directory (second segment of a node restarted as a new process)
+	PreExec [][]string `json:"pre_exec"` // member: pre-executed before block i
+	Resume  bool       `json:"resume"`   // open the existing data directory (second segment of a node restarted as a new process)
 	Track   []string   `json:"track"`
 	Fresh   bool       `json:"fresh"` // member: decode the wire bytes again before every ExecuteBlock repetition
 }
@@ -96,6 +97,7 @@ type ChildOut struct {
 	Digests  map[string]string `json:"digests"`
 	TreeSize string            `json:"state_tree"`
 	Millis   int64             `json:"ms"`
+	PreExecs int               `json:"pre_execs"`
 }
 
 func init() {
@@ -269,8 +271,17 @@ func runJob(job *Job, out *ChildOut) {
 // ExecuteBlock, so every repetition starts from the same state and only the runtime's map orders
 // differ) and then submitted with the last result.
 func runMember(job *Job, k *ledgerkit.Kit, out *ChildOut) {
-	for _, offered := range job.Blocks {
+	for bi, offered := range job.Blocks {
 		var obs BlockObs
+		if bi < len(job.PreExec) {
+			// RPC traffic between blocks: pre-executions run on scratch state and commit nothing
+			for _, raw := range job.PreExec[bi] {
+				if tx, err := types.TransactionFromRawBytes(hx.UnHex(raw)); err == nil {
+					hx.Recover(func() { k.Ledger.PreExecuteContract(tx) })
+					out.PreExecs++
+				}
+			}
+		}
 		decodeAll := func(record bool) []*types.Transaction {
 			var txs []*types.Transaction
 			for i, spec := range offered {
